@@ -488,8 +488,11 @@ def harden_ops(ctx, inst, form, ddp, inp, rng, thorough):
         conds["bellman on " + nm_] = bool(np.allclose(dd.bellman_operator(np.array(vint, dtype=float)), base[0], rtol=1e-12, atol=1e-12))
         # the action LABELS are preserved by both conversions, so the greedy policies agree (ties: same first maximiser
         # because both forms list a state's actions in increasing label order -- except for an sa form given with -inf pairs)
-        if not np.isinf(form.args[0]).any() or form.kind == "product":
-            conds["greedy on " + nm_] = bool(np.array_equal(dd.compute_greedy(np.array(vint, dtype=float)), base[1]))
+        g_ = dd.compute_greedy(np.array(vint, dtype=float))
+        if inst.dyadic and (not np.isinf(form.args[0]).any() or form.kind == "product"):
+            conds["greedy on " + nm_] = bool(np.array_equal(g_, base[1]))
+        else:       # rounding may break an exact tie differently in another storage format: require a maximiser
+            conds["greedy on " + nm_] = sigma_is_near_greedy(inst, [Fraction(x) for x in vint], [int(x) for x in g_])
     def feas_(pp):
         return {(s_, a_): (float(pp.R[s_, a_]), tuple(pp.Q[s_, a_])) for s_ in range(pp.R.shape[0]) for a_ in range(pp.R.shape[1]) if pp.R[s_, a_] > -np.inf}
     conds["prod1 == prod2 on feasible pairs"] = feas_(p1) == feas_(p2)
@@ -595,7 +598,8 @@ def run(ctx):
                 # ---- bellman_operator / compute_greedy
                 tests_exact, tests_close = [], []
                 vs_list = [[Fraction(0)] * inst.n] + [dyadic_v(rng, inst.n) for _ in range(3)]
-                vs_list.append(dyadic_v(rng, inst.n, scale_bits=rng.choice([10, 20, 30])))
+                # huge values only where all arithmetic is exact (tenths x 2^30 cancel catastrophically in floating point)
+                vs_list.append(dyadic_v(rng, inst.n, scale_bits=rng.choice([10, 20, 30]) if inst.dyadic else 0))
                 for vi_, v in enumerate(vs_list):
                     vf = np.array([float(x) for x in v])
                     mode = vi_ % 3
